@@ -12,6 +12,7 @@ from .. import common, solvex, cfgs, monitors as mon
 
 LEVEL = "exploration"
 MOD = "C10"
+SITE_EXEMPT = {}     # evaluation sites this check cannot reach (site -> reason); see solvex.site_floor
 
 
 class ExitTruthMonitor(solvex.Monitor):
@@ -193,6 +194,7 @@ def run(report, tier, seed):
     salts = common.salts_for(tier, seed)
     cps = _configs(tier, salts)
     res = solvex.explore(report, MOD, cps, classify=classify)
+    solvex.site_floor(report, res["tags"], exempt=SITE_EXEMPT)
     tags = res["tags"]
     cov = report.coverage
     msgs = sorted(t for t in tags if t.startswith("msg:"))
